@@ -54,6 +54,8 @@ class Synth:
         self.perturb = perturb
         self.data = w.src_bytes
         self.size = len(w.src_bytes)
+        self.src_path = w.src_path
+        self.dst_req = w.dst_req
 
     # -- header
     def conf(self, t, kind: str, seq: int | None, pert: bool = True):
@@ -127,7 +129,7 @@ class Synth:
         if kind == "MD":
             var = t.weighted([8, 1, 1, 1, 1], "md variant")
             size = self.size
-            src, dst = w.src_path, w.dst_req
+            src, dst = self.src_path, self.dst_req
             ck = c.ck
             closure = c.closure
             if var == 1:
